@@ -601,7 +601,9 @@ def _run_own(ctx):
         #   [S]      first attempt processed, send fails
         #   [Q, S]   first attempt never arrives; the retry (retry=1) is processed, its send fails
         #   [L, S]   first attempt processed and answered (reply lost on the way); the retry is accepted as a retry,
-        #            its send fails -> munged gives the record back
+        #            its send fails -> the retry added nothing (c->is_replay_new = 0), so munged takes nothing back: the
+        #            first attempt's reply was sent as far as munged can tell and the credential STAYS consumed
+        #            (repair 3dbe0fd "take back only the replay entry that this decode added"; C13_retry_on_own_record_keeps_it)
         px.set_plan([])
         for seq in ([["S"], ["Q", "S"], ["L", "S"], ["W", "S"]] * (2 if ctx.thorough else 1)):
             cred = fresh_cred("small")
@@ -615,9 +617,13 @@ def _run_own(ctx):
             dist["unsent-no-retry"] = dist.get("unsent-no-retry", 0) + 1
             if diff:
                 mism.append({"op": "unsent", "diff": diff})
-            if d is None or d["error_num"] != 0:
-                fails.append({"why": "attempts %s: the reply to a successful decode could not be delivered and the client never came back, yet "
-                                     "the credential is now reported as %s" % (seq, d and (d["error_num"], d["error_str"]),), "op": "unsent", "seq": seq})
+            want = 17 if "L" in seq[:-1] else 0      # an earlier attempt was answered as far as munged can tell: record stays
+            if d is None or d["error_num"] != want:
+                fails.append({"why": ("attempts %s: the reply to a successful decode could not be delivered and the client never came back, yet "
+                                      "the credential is now reported as %s" if want == 0 else
+                                      "attempts %s: an earlier attempt was answered (its reply was lost on the way), the retry's reply could not be "
+                                      "sent; the retry added no record, so the credential must stay consumed, but it is now reported as %s")
+                                     % (seq, d and (d["error_num"], d["error_str"]),), "op": "unsent", "seq": seq})
         # the reply to a successful decode breaks in the MIDDLE: munged has written part of it, waits for buffer space, the
         # peer hangs up after k bytes; the client never comes back.  Replies larger than the socket send buffer.
         huge = gen_payload(HUGE)
@@ -642,7 +648,13 @@ def _run_own(ctx):
                     "how_to_replay": "encode %d bytes ((i*131+7)&255); send the DEC_REQ(s) (retry = 0, 1, ..) from a raw client; for the "
                                      "last one read %d bytes of the reply, wait 30 ms, close; wait until munged has closed its end; "
                                      "decode the credential again" % (HUGE, k)}
-            if d1 is None or d1["error_num"] != 0 or d1["data"] != huge:
+            if "L" in seq[:-1]:
+                # an earlier attempt was answered as far as munged can tell: the retry added no record and takes none back
+                if d1 is None or d1["error_num"] != 17:
+                    fails.append(dict(case, key="unsent-mid-own-record", why="attempts %s: an earlier attempt was answered (reply lost on the "
+                                      "way), the retry's reply broke after %d bytes; the retry added no record, so the credential must stay "
+                                      "consumed, but the next decode gives %s" % (seq, k, d1 and (d1["error_num"], d1["error_str"]))))
+            elif d1 is None or d1["error_num"] != 0 or d1["data"] != huge:
                 fails.append(dict(case, key="unsent-mid", why="attempts %s: munged had written only part of the reply to a successful decode "
                                   "(%d-byte payload) when the client hung up after %d bytes, and the client never came back; the credential "
                                   "must remain decodable, but the next decode gives %s" % (
